@@ -51,7 +51,7 @@ StoredTfdt(rep, m) == rep.st + SrcStart(rep, m)
 -----------------------------------------------------------------------------
 \* DashTiming.calculate_live_params (the part C01/C02 depend on); e = now - AST > 0
 ImplTsbd(e, o) ==
-    LET d == IF o.depth = 0 THEN 60 ELSE o.depth
+    LET d == IF o.depth <= 0 THEN 60 ELSE o.depth
     IN  IF e < d * Q THEN e \div Q ELSE d
 ImplFta(e, o) == e - ImplTsbd(e, o) * Q
 
